@@ -330,13 +330,13 @@ type collideObs struct {
 	I          int    `json:"i"`
 	J          int    `json:"j"`
 	ID         string `json:"id"`
-	SameID     bool   `json:"same_id"`     // the two real requests did get the same response PID
-	AGot       int    `json:"a_got"`       // tag of the reply request i's Result() returned (1 = its own, 2 = the other's)
+	SameID     bool   `json:"same_id"` // the two real requests did get the same response PID
+	AGot       int    `json:"a_got"`   // tag of the reply request i's Result() returned (1 = its own, 2 = the other's)
 	AErr       bool   `json:"a_err"`
 	BGot       int    `json:"b_got"`
 	BErr       bool   `json:"b_err"`
-	DupEvents  int    `json:"dup_events"`  // ActorDuplicateIdEvents for response ids
-	DeadOwn    int    `json:"dead_own"`    // request i's own reply, sent afterwards, dead-lettered
+	DupEvents  int    `json:"dup_events"` // ActorDuplicateIdEvents for response ids
+	DeadOwn    int    `json:"dead_own"`   // request i's own reply, sent afterwards, dead-lettered
 	CrossTalk  bool   `json:"cross_talk"`
 	DrawMillis int64  `json:"draw_ms"`
 }
